@@ -42,7 +42,13 @@ THEOREMS = [P + n for n in (
     'cv_kfold_values_disjoint', 'sample_conds_are_selection', 'cv_pred_aligned',
     'internal_cv_spec', 'bcv_entry', 'bcv_nan_row', 'dual_entry', 'random_entry',
     'testset_entry', 'noise_ceiling_same_resample_cv', 'nan_samples_excluded_cv',
-    'eval_deterministic', 'cv_correction_spec')]
+    'eval_deterministic', 'cv_correction_spec',
+    # round 3
+    'usable_tests_spec', 'cv_cov_switch', 'cvMethod_closed', 'result_ns_consistent',
+    'result_ns_random_partial', 'result_crossval_plain', 'result_attrs', 'result_shapes',
+    'loops_fill_arrays', 'model_rows_fill_shape', 'crossval_rejects_iff',
+    'usable_resample_sets_accepted', 'cov_lt_two_undefined', 'cov_single_obs_numerator',
+    'k_default_spec', 'nc_descriptor_spec', 'n_groups_def')]
 RULE = ('one PRNG; stacks of 2-8 RDMs x 4-12 conditions (dissimilarities k/8, k integer) with int or '
         'str grouping descriptors on either axis or the default index; 1-3 models of the classes '
         'fixed / weighted / select / interpolate, theta given or fitted (default fitters, fit_regress, '
@@ -59,7 +65,12 @@ BRANCHES = ['routine:fixed', 'routine:bootstrap', 'routine:crossval', 'routine:b
             'model:interpolate', 'theta:given', 'fitter:default', 'fitter:regress',
             'correction:on', 'correction:off', 'k:1', 'k:2+', 'cv:ceil', 'cv:noceil',
             'method:cosine', 'method:corr', 'method:spearman', 'method:rho-a', 'method:tau-a',
-            'single_rdm']
+            'single_rdm',
+            # round 3
+            'desc:float', 'desc:float-collide-int', 'desc:bool', 'desc:negative', 'desc:array', 'desc:int64', 'desc:tuple',
+            'models:4+', 'models:mixed3', 'N:large', 'N:2', 'k:default', 'n:default',
+            'cv:nonrandom', 'sets:rejected', 'cov:undefined', 'fitcheck:select',
+            'fitcheck:optimize']
 ASSUMPTIONS = [
     'all randomness of the routines comes from numpy.random (randint, shuffle; rand inside '
     'fit_optimize) — checked by the taps (every draw is recorded and replayed in the model) and by '
@@ -81,7 +92,7 @@ TRUSTED_EXTRA = [
 def run_impl(case):
     o = L.observe(case)
     if 'exc' in o:
-        return {'exc': o['exc'], 'msg': o.get('msg'), 'callee_exc': o.get('callee_exc', False)}
+        return {'exc': o['exc'], 'msg': o.get('msg')}
     return o['result']
 
 
@@ -100,14 +111,12 @@ def model_result(case, answers):
     exp = L.expected_exception(case)
     if exp:
         return {'exc': exp}
-    return L.model_canon(case, a)
+    return L.model_canon(case, a)       # incl. the modelled rejection of a fold request
 
 
 def compare(case, impl, model):
     if isinstance(model, dict) and 'model_error' in model:
         return f'model error {model}'
-    if impl.get('callee_exc'):
-        return None      # a fitter / noise-ceiling function raised on its input: C08 / C07, not C04
     if 'exc' in impl or 'exc' in model:
         if impl.get('exc') != model.get('exc'):
             return f"library {impl.get('exc')} ({impl.get('msg')}) vs model {model.get('exc')}"
